@@ -289,9 +289,10 @@ func (b *bloomcache) Get(ctx context.Context, k cid.Cid) (blocks.Block, error) {
 func (b *bloomcache) Put(ctx context.Context, bl blocks.Block) error {
 	// See comment in PutMany
 	err := b.blockstore.Put(ctx, bl)
-	if err == nil {
-		b.bloom.Load().AddTS(bl.Cid().Hash())
-	}
+	// Add the key even if Put failed: the write may have reached the datastore
+	// before the error, and a key that is in the filter but not in the store
+	// only costs a lookup, while the opposite is a false negative.
+	b.bloom.Load().AddTS(bl.Cid().Hash())
 	return err
 }
 
@@ -301,13 +302,11 @@ func (b *bloomcache) PutMany(ctx context.Context, bs []blocks.Block) error {
 	// this means that PutMany can't be improved with bloom cache so we just
 	// just do a passthrough.
 	err := b.blockstore.PutMany(ctx, bs)
-	if err != nil {
-		return err
-	}
+	// Also on error: part of the batch may have been written (see Put).
 	for _, bl := range bs {
 		b.bloom.Load().AddTS(bl.Cid().Hash())
 	}
-	return nil
+	return err
 }
 
 func (b *bloomcache) AllKeysChan(ctx context.Context) (<-chan cid.Cid, error) {
